@@ -183,7 +183,7 @@ fn cli_interrupts(rep: &Report, n: usize, seed: u64) {
         };
         let seg: u16 = *rng.pick(&[0xFFFFu16, 0xFFFF, 0xF000, 0, 0xFFF0]);
         let off: u16 = *rng.pick(&[0x000Eu16, 0x000F, 0xFFFF, 0xFFFE, 0, 0x0010, 0x00FF, 2, 8, 12, 13, 0x00F8]);
-        let cxv: u16 = *rng.pick(&[0u16, 1, 5, 40, 300]);
+        let cxv: u16 = *rng.pick(&[0u16, 1, 5, 40, 300, 1024, 1025, 1500, 5000, 65535]);
         let cap: u8 = *rng.pick(&[0u8, 1, 2, 3, 4, 5, 6, 7, 20, 255, 255]);
         let stdin: Vec<u8> = match rng.below(6) {
             0 => vec![],
